@@ -769,10 +769,10 @@ def task_writer(n, tier, seed):
                 acc.sample = {"session": sname, "crash_points": [[ph, op, len(d)] for (ph, op, d) in log],
                               "accepted_inside_close": stats["accepted_inside_close"]}
     out += acc.obligations()
-    # vacuity: the sessions expose the steps of _write_closing_info (declared: seek, box, newline;
-    # back-filled: seek, count, seek, box, newline)
-    ok = (closing_ops.get("declared") and min(closing_ops["declared"]) >= 3 and
-          closing_ops.get("backfilled") and min(closing_ops["backfilled"]) >= 5)
+    # vacuity: the proxy sees the steps of _write_closing_info (now: declared = seek, box, newline;
+    # back-filled = seek, count, seek, box, newline; a writer that merges box and newline into one write is fine)
+    ok = (closing_ops.get("declared") and min(closing_ops["declared"]) >= 2 and
+          closing_ops.get("backfilled") and min(closing_ops["backfilled"]) >= 4)
     out.append(ob("%s/%s/guard.close-steps-observed/%s" % (PROP, FN_W, fam), "discharged" if ok else "refuted",
                   kind="guard", engine="smallscope", backend="runtime-contract", expect="discharged",
                   sample={"low_level_operations_inside_close": {k: sorted(v) for k, v in closing_ops.items()},
